@@ -129,7 +129,63 @@ func glyfMain(args []string) error {
 				}
 				ev["upem"] = int(face.Upem())
 				ev["adv"] = int(face.HorizontalAdvance(font.GID(g)))
-				if simple {
+				lsbOf := func(g int) int {
+					if g < nhm {
+						return int(int16(binary.BigEndian.Uint16(hmtx[4*g+2:])))
+					} else if p := 4*nhm + 2*(g-nhm); p+2 <= len(hmtx) {
+						return int(int16(binary.BigEndian.Uint16(hmtx[p:])))
+					}
+					return 0
+				}
+				judgeOutline := simple
+				if !simple && len(rec) >= 10 {
+					// composite: the records of the referenced components are supplied as facts (the glyph ids are
+					// read here only to fetch them; the specification decodes the composite record itself and
+					// checks that these are the components it finds)
+					parts := []map[string]interface{}{}
+					ok := true
+					for p := 10; p+4 <= len(rec) && len(parts) < 64; {
+						fl := binary.BigEndian.Uint16(rec[p:])
+						cg := int(binary.BigEndian.Uint16(rec[p+2:]))
+						cs, ce := off(cg), off(cg+1)
+						if cs < 0 || ce < cs || ce > len(glyf) || ce-cs > 1500 {
+							ok = false
+							break
+						}
+						crec := glyf[cs:ce]
+						if len(crec) == 0 {
+							crec = make([]byte, 10)
+						}
+						if len(crec) < 10 || int16(binary.BigEndian.Uint16(crec)) < 0 {
+							ok = false // nested composite: not judged
+							break
+						}
+						parts = append(parts, map[string]interface{}{"gid": cg, "glyf": bytesToInts(crec), "lsb": lsbOf(cg)})
+						p += 4
+						if fl&1 != 0 {
+							p += 4
+						} else {
+							p += 2
+						}
+						switch {
+						case fl&0x8 != 0:
+							p += 2
+						case fl&0x40 != 0:
+							p += 4
+						case fl&0x80 != 0:
+							p += 8
+						}
+						if fl&0x20 == 0 {
+							break
+						}
+					}
+					if !ok {
+						parts = []map[string]interface{}{}
+					}
+					ev["parts"] = parts
+					judgeOutline = len(parts) > 0
+				}
+				if judgeOutline {
 					ext, _ := face.GlyphExtents(font.GID(g))
 					ev["ext"] = [4]int{int(ext.XBearing), int(ext.YBearing), int(ext.Width), int(ext.Height)}
 					contours := [][][]interface{}{}
